@@ -145,3 +145,18 @@ Example C02_example_extended_cancel_then_retry :
   exists fs2, faccepts g_x c_x true (dst (fb fs1)) tr_x2 = Some fs2 /\
     returned (fb fs2) = Some true /\ present_nodes g_x (dst (fb fs2)) = [0; 1; 2].
 Proof. exact example_ext_run. Qed.
+
+(* The transition system refuses exactly the behaviours the property forbids: a parent whose
+   successor's transfer failed never reaches PreCopy/Push (the done channel of a failed node is
+   not closed), and a cancelled call -- even one cancelled before anything was dispatched --
+   has no successful return. *)
+Example C02_example_rejects_parent_of_dead :
+  (exists fs, faccepts g_sh c_sh false [] tr_sh_pre = Some fs /\ ph (fb fs) 0 = Dead /\ ph (fb fs) 3 = Waiting) /\
+  faccepts g_sh c_sh false [] (tr_sh_pre ++ [Ev (Cb CPre 3)]) = None.
+Proof. exact example_rejects_parent_of_dead. Qed.
+
+Example C02_example_rejects_ok_after_cancel :
+  faccepts g_sh c_sh false [] [Cancel; Ev (Ret true)] = None /\
+  (exists fs, faccepts g_sh c_sh false [] [Cancel; Ev (Ret false)] = Some fs) /\
+  faccepts g_x c_x true [0; 1; 2] [ProOk; Cancel; ProOk; ProOk; Ev (Ret true)] = None.
+Proof. exact example_rejects_ok_after_cancel. Qed.
